@@ -8,3 +8,4 @@ import OG.C03.MultiAnswers2
 import OG.C03.ColStore
 import OG.C03.FullPlanProps
 import OG.C03.MetaTie
+import OG.C03.PreAggProps
